@@ -16,8 +16,13 @@ AGG = "SELECT g, COUNT(*) AS c FROM big GROUP BY g"
 CLASS_BY_CODE = {1: "json-duplicate-column-names", 2: "json-non-finite-double", 3: "csv-empty-string"}
 
 
+FORCE_PROBE = "distributed=force"
+
+
 def stmt(cluster, node, sql, http, tag):
-    return {"op": "stmt", "cluster": cluster, "node": node, "sql": sql, "http": http, "flight": [], "tag": tag}
+    """Every case ends with the plain force request for its statement on its node: the observation of what the distributed run
+    over this node's Up members yields in this run (e_dist).  It is never defaulted."""
+    return {"op": "stmt", "cluster": cluster, "node": node, "sql": sql, "http": list(http) + [FORCE_PROBE], "flight": [], "tag": tag}
 
 
 def three_modes(rng, fmts=None):
@@ -138,9 +143,13 @@ def units_of(cases, outs):
                 # every member that is Up is healthy here: a distributed run over the Up members yields what the engine yields
                 e_dist = e_local
             else:
-                f = find_mode_request(o, "force")
-                e_dist = fd.run_term_of_response(f) if f is not None else "RunOk"
+                f = o["http"][-1] if o["http"] and o["http"][-1].get("qs") == FORCE_PROBE and "status" in o["http"][-1] else None
+                e_dist = fd.run_term_of_response(f) if f is not None else None
             stable = o.get("members") == o.get("members_after")
+            if e_dist is None:
+                # no observation of the distributed run for this case: not judged, counted
+                units.append({"kind": "unobserved", "case": c, "out": o})
+                continue
             for hi, h in enumerate(o["http"]):
                 units.append({"kind": "sql", "case": c, "ci": ci, "hi": hi, "h": h, "out": o, "local": local,
                               "env": fd.env_term(o, e_local, e_dist), "stable": stable, "sql_len": len(c["sql"].encode())})
@@ -196,6 +205,8 @@ def unit_term(u):
         e = "(mkEnv %s 1 true RunOk RunOk)" % load
         ready_ok = blit(st == 503) if load != "Loaded" else "true"
         return "[frag_eqb %s (fragment_handler %s %s %s); %s; true]" % (obs, e, zlit(body_len(c["body"])), blit(c["parses"]), ready_ok), 0
+    if u["kind"] == "unobserved":
+        return "[true; true; true]", 0
     return "[false; false; false]", 0
 
 
@@ -294,6 +305,7 @@ def run(ctx):
             dist["known_class_units"][c] = dist["known_class_units"].get(c, 0) + 1
         if st is not None and (u["case"]["tag"] != "querystring" or h["qs"]):
             seen.add((u["case"]["cluster"], u["case"]["node"], u["case"]["sql"] if isinstance(u["case"]["sql"], str) else "pad", h["qs"]))
+    dist["cases_not_judged_for_lack_of_a_distributed_run_observation"] = sum(1 for u in units if u["kind"] == "unobserved")
     ctx.cov["distinct_nontrivial"] = len(seen)
     ctx.cov["input_distribution"] = dist
     for u in sqlu[:2] + [u for u in sqlu if u["case"].get("expect_dist_fail")][:2]:
@@ -320,7 +332,8 @@ def run(ctx):
         assumptions=["the local engine result (ExecutionContext::sql in the harness process on the same Parquet files) is the "
                      "reference for `rows the engine returned`; aggregates are over integer columns only, so distributed and local "
                      "answers are bitwise comparable",
-                     "e_dist (what the distributed run yields) is read off the force request of the same case, or fixed by "
+                     "e_dist (what the distributed run yields) is observed, never defaulted: every case ends with the plain distributed=force request for its "
+                     "statement on its node in the same run (cases without that observation are left unjudged and counted), or it is fixed by "
                      "construction for the peers that must fail their fragment (error) and for the clusters whose Up members are all "
                      "healthy (= the engine's own result); members_up = self + peers last seen Up (harness reads Membership::members())",
                      "fragments must reach Up members only: the silent peer's fragment counter must stay 0 and x-qe-shards must equal "
